@@ -84,7 +84,10 @@ def State.step (roots : List Trie) (st : State) : Ev → State
   | .leave k =>
     if st.safeCalls > 0 then
       (match k with
-      | .safeCall => { st with safeCalls := st.safeCalls - 1 }
+      | .safeCall =>
+        -- leaving the outermost safe call ends the chain that was pending before it
+        let st' := { st with safeCalls := st.safeCalls - 1 }
+        if st'.safeCalls = 0 then st'.finish else st'
       | _ => st)
     else match k with
       | .var name => (st.finish).onVar roots name
